@@ -223,9 +223,10 @@ def find_witness(pid, obligation):
     return None
 
 
-STANDIN_MODES = {"C02": ["ident"], "C05": ["dec"], "C06": ["wf"], "C07": ["consist"], "C09": ["thr"], "C11": ["ncase"], "C15": ["iter"], "C18": ["orule"]}
+STANDIN_MODES = {"C02": ["ident", "stream"], "C05": ["dec"], "C06": ["wf"], "C07": ["consist"], "C09": ["thr"], "C11": ["ncase"], "C15": ["iter"], "C18": ["orule"]}
 STANDIN_BOUND = {
     "ident": "22 texts without number words x 7 languages x thresholds {0,10} must come back identical; 7 number phrases x 6 punctuation frames",
+    "stream": "29 token streams x thresholds {0,10} through replace_numbers_in_stream with tokens that record their source words",
     "dec": "16 decimal phrases (7 languages): rewritten text and Occurence.value",
     "wf": "29 token streams (7 languages, pause / not-a-number hints) x thresholds {0,10,1000}: spans ordered, text/value/is_ordinal consistent",
     "consist": "29 token streams x 3 thresholds: validator(span words) == occurrence text; at threshold 0 no lone number word is left out",
